@@ -42,7 +42,14 @@ fn models(tier: Tier) -> Vec<Model> {
     }
     // half-reified constraints must not tighten anything while the literal is free: a stride of
     // all reified cases and every half-reified cumulative (all propagation methods)
-    v.extend(crate::props::c09::reified_models(tier).into_iter().step_by(if tier.quick() { 3 } else { 1 }));
+    let over_literals = |m: &Model| m.vars.iter().filter(|d| d.kind == VarKind::Lit).count() >= 2;
+    v.extend(
+        crate::props::c09::reified_models(tier)
+            .into_iter()
+            .enumerate()
+            .filter(|(i, m)| !tier.quick() || i % 3 == 0 || over_literals(m))
+            .map(|(_, m)| m),
+    );
     v.extend(crate::props::c09::reified_cumulative_models(tier).into_iter());
     v
 }
